@@ -33,6 +33,9 @@ type V struct {
 	heapVers map[string]int
 	curGroup *OblGroup
 	groups   []*OblGroup
+	globalVals  map[*types.Var]Val
+	globalBusy  map[*types.Var]bool
+	globalBases []string
 	axioms   []string
 	closures map[string]*closureInfo
 
@@ -975,7 +978,10 @@ func (v *V) runLoop(fr *Frame, s ast.Stmt, st *State, ls *LoopSpec, ord int, bod
 	v.assumeInvs(fr, head, ls, scope, pos, ex)
 	frameInv(head, "", mods.heap, true)
 	// vacuity guard: invariant satisfiable
-	v.addObl(head, fmt.Sprintf("%s/inv-sat#%d", v.fi.name(), ord), "inv-sat", "false", s.Pos(), fmt.Sprintf("loop %d invariant is satisfiable (vacuity guard)", ord), "sat")
+	if g := v.addObl(head, fmt.Sprintf("%s/inv-sat#%d", v.fi.name(), ord), "inv-sat", "false", s.Pos(), fmt.Sprintf("loop %d invariant is satisfiable (vacuity guard)", ord), "sat"); g != nil {
+		// if the path reaching the loop is itself infeasible the guard is moot (checked only when it fires)
+		g.AltPC = append(append([]string(nil), st.pc...), st.guards...)
+	}
 	var m0 *Val
 	headForDecr := head.clone()
 	exits, backs, escapes := iter(head)
